@@ -207,7 +207,12 @@ def rule_g2(ctx):
     if r is None:
         # mirror image of before?
         raise Unrecognised("C04.G2", c, "after is not a single return expression")
-    if r == f"{before_name}(T, P2, P1)":
+    tuple_cmp = [x for x in ast.walk(body_wo_doc(nf)[0]) if isinstance(x, ast.Compare) and len(x.ops) == 1 and isinstance(x.ops[0], (ast.Gt, ast.Lt, ast.GtE, ast.LtE)) and {src(x.left), src(x.comparators[0])} == {"P1", "P2"}] if body_wo_doc(nf) else []
+    if tuple_cmp and before_name not in r:
+        ctx.viol("G2-after-converse", c, "before(P2, P1)", site(f),
+                 f"after is decided by Python's tuple comparison (`{src(tuple_cmp[0])}`): lexicographic order ranks a proper extension above its prefix, so a node that lies BELOW node 2 "
+                 "(path_1 = (1, 0), path_2 = (1,)) counts as 'after' although the specification excludes ancestor/descendant pairs")
+    elif r == f"{before_name}(T, P2, P1)":
         ctx.ok("G2-after-converse", c, "before(P2, P1)", site(f), "after is before with swapped arguments")
     elif r == f"{before_name}(T, P1, P2)":
         ctx.viol("G2-after-converse", c, "before(P2, P1)", site(f), "after delegates to before without swapping the arguments")
@@ -361,6 +366,69 @@ def rule_g5(ctx):
         raise Unrecognised("C04.G5", PRED, f"only {n_iters} subtree path iterations found (expected nth and consecutive)")
 
 
+def rule_g6(ctx):
+    """level: the candidate anchors are ALL common prefixes of the two paths up to and including the divergence point (plus the empty prefix)."""
+    m, entries = registry(ctx)
+    if "level" not in entries:
+        raise Unrecognised("C04.G6", f"{PRED}:STANDARD_STRUCTURAL_PREDICATES", "level not registered")
+    f = entries["level"][1]
+    c = f"{PRED}:{f.name}"
+    t = " ".join(src(f).split())
+    params = [a.arg for a in f.args.args]
+    p1, p2 = params[-2], params[-1]
+    loop = f"for idx in range(min(len({p1}), len({p2}))): if {p1}[idx] != {p2}[idx]: break prefix = {p1}[:idx + 1] if context_tree.get_subtree(prefix).value == nonterminal: common_nonterminal_prefixes.append(prefix)"
+    init = "common_nonterminal_prefixes: List[Path] = [tuple()]"
+    if loop in t and init in t:
+        ctx.ok("G6-level-anchors", c, "anchors = () and every common prefix path[:idx+1] labelled with the nonterminal", site(f), "all common prefixes incl. the deepest one")
+    else:
+        # recognised-bad: a range over prefix lengths that stops before the full common prefix
+        import re as _re2
+
+        mm = _re2.search(r"for idx in range\(1, (\w+)\)", t)
+        if mm and f"{p1}[:idx]" in t and "+ 1" not in t[mm.start(): mm.start() + 200]:
+            ctx.viol("G6-level-anchors", c, "anchors include the deepest common prefix", site(f),
+                     f"prefix lengths range over range(1, {mm.group(1)}), which stops one short of the full common prefix: the deepest common ancestor-or-self is never used as an anchor "
+                     "(wrong verdicts when the two nodes diverge exactly at a node labelled with the nonterminal)")
+        else:
+            raise Unrecognised("C04.G6", c, "computation of the common nonterminal prefixes is not in the recognised shape")
+    occ = f"[path[:idx] for idx in range(len(prefix) + 1, len(path)) if context_tree.get_subtree(path[:idx]).value == nonterminal]"
+    if occ not in t:
+        raise Unrecognised("C04.G6", c, "computation of the nonterminal occurrences between anchor and node is not in the recognised shape")
+    ctx.ok("G6-level-anchors", c, "occurrences strictly between anchor and node", site(f), "range(len(prefix) + 1, len(path))")
+    # operator table, compared semantically: A = 'occurrences below the anchor on path 1', B = same for path 2
+    from ..formulas import PropError, if_chain, truth_table
+
+    spec = {"EQ": (True, False, False, False), "GE": (True, True, False, False), "LE": (True, False, True, False), "GT": (False, True, False, False), "LT": (False, False, True, False)}
+    loop2 = next((n for n in walk_local(f) if isinstance(n, ast.For) and src(n.iter) == "common_nonterminal_prefixes"), None)
+    if loop2 is None:
+        raise Unrecognised("C04.G6", c, "loop over the common prefixes not found")
+    chain_head = next((st for st in loop2.body if isinstance(st, ast.If)), None)
+    if chain_head is None:
+        raise Unrecognised("C04.G6", c, "operator dispatch not found")
+    found = {}
+    for test, body, _node in if_chain([chain_head]):
+        if test is None:
+            continue
+        if not (isinstance(test, ast.Compare) and src(test.left) == "pred" and isinstance(test.ops[0], ast.Eq) and isinstance(test.comparators[0], ast.Constant)):
+            raise Unrecognised("C04.G6", c, f"dispatch test {src(test)} not understood")
+        op = test.comparators[0].value
+        if not (len(body) == 1 and isinstance(body[0], ast.If) and not body[0].orelse and len(body[0].body) == 1 and isinstance(body[0].body[0], ast.Return) and src(body[0].body[0].value) == "True"):
+            raise Unrecognised("C04.G6", c, f"branch for {op} is not `if <condition>: return True`")
+        try:
+            found[op] = (truth_table(body[0].test, {"nonterminal_occs_1": "A", "nonterminal_occs_2": "B"}), body[0])
+        except PropError as e:
+            raise Unrecognised("C04.G6", c, f"condition for {op} not propositional over the two occurrence lists: {e}")
+    for op, want in spec.items():
+        if op not in found:
+            ctx.viol("G6-level-table", c, f"operator {op}", site(f), f"level operator {op} has no branch: level(\"{op}\", ...) is always false")
+            continue
+        got, node = found[op]
+        ctx.check(got == want, "G6-level-table", c, f"{op}: truth table over (occs_1 non-empty, occs_2 non-empty)", site(node),
+                  f"the condition `{src(node.test)}` for level operator {op} has truth table {got} over (occs_1, occs_2) in (FF, FT, TF, TT); the documented meaning is {want}", "documented condition")
+    last = f.body[-1]
+    ctx.check(isinstance(last, ast.Return) and src(last.value) == "False", "G6-level-table", c, "False when no anchor works", site(last), "level_check must return False when no common prefix satisfies the operator", "returns False")
+
+
 def rule_g3(ctx):
     m, entries = registry(ctx)
     for name, (_, fn, _, cname) in sorted(entries.items()):
@@ -382,5 +450,6 @@ def run(ctx) -> str:
     ctx.guarded("G3", lambda: rule_g3(ctx))
     ctx.guarded("G4", lambda: rule_g4(ctx))
     ctx.guarded("G5", lambda: rule_g5(ctx))
+    ctx.guarded("G6", lambda: rule_g6(ctx))
     ctx.assume("the predicate table of sphinx/islaspec.rst is the documented meaning")
     return EXPLANATION
